@@ -290,48 +290,6 @@ def flat(ty) -> bool:
     return True
 
 
-def zero_arity(ty) -> bool:
-    """a typed function test without parameters somewhere in the type"""
-    k = ty[0]
-    if k == 'F':
-        return not ty[1] or any(zero_arity(a) for a in ty[1]) or zero_arity(ty[2])
-    if k == 'M':
-        return zero_arity(ty[2])
-    if k == 'A':
-        return zero_arity(ty[1])
-    return False
-
-
-def old_split_region(ty) -> bool:
-    """where `partition(') as ')` / `split(', ')` (the tree without fix-c18-6) cuts a typed function test at other
-    places than the grammar: a parameter that is not `simple` (Lean: `string_split_old_agrees_iff_simple`) or no
-    parameter at all — trigger of finding F18p on a tree without the fix"""
-    return not flat(ty) or zero_arity(ty)
-
-
-_PROBES = {}
-
-
-def tree_has(what: str) -> bool:
-    """behaviour probes of the tree under test for the three commits of branch fix-c18-6 ('split', 'parser', 'paren') (on a tree that has them the
-    F18p region is checked as strictly as everything else; on a tree without them it is the listed finding)"""
-    if what not in _PROBES:
-        if what == 'split':
-            from elementpath.helpers import split_function_test
-            _PROBES[what] = split_function_test('function(map(xs:string, xs:int)) as xs:int') == \
-                ['map(xs:string, xs:int)', 'xs:int']
-        else:
-            from elementpath.xpath31 import XPath31Parser
-            probe = {'parser': '. instance of function() as function(function(*), function(*)) as xs:int',
-                     'paren': '. instance of (xs:integer)'}[what]
-            try:
-                XPath31Parser().parse(probe)
-                _PROBES[what] = True
-            except Exception:
-                _PROBES[what] = False
-    return _PROBES[what]
-
-
 def has_typed_func(ty) -> bool:
     k = ty[0]
     return k == 'F' or (k == 'M' and has_typed_func(ty[2])) or (k == 'A' and has_typed_func(ty[1]))
@@ -952,30 +910,17 @@ def judge_cases(run: Run, W: World, cases, label='judgement'):
                 ('function parameter', ip, a['param'], 'function-parameter', '_InlineFunction.__call__.get_argument', pspec)):
             if got is None:
                 continue
-            if op == 'function parameter' and got == 'E:XPST0003' and (a['fpp'] == '1' or ty[0] == 'F') \
-                    and not tree_has('parser'):
-                # the declaration `function($g as T)` itself is rejected by the parser (F18p family): nothing is judged
-                st.count('param:declaration-rejected')
-                continue
             if sp_ is None and got == 'E:XPST0051' and has_typed_func(ty):
                 # a list-type / non-atomic name inside a typed function test is a STATIC error of the parser
                 # (XPST0051 while the function test is read), whatever the value: not a judgement
                 st.count('static-XPST0051-in-function-test')
                 continue
-            if a['fp'] == '1' and not tree_has('parser'):
-                # the parser rejects / corrupts this legal type (finding F18p): the model of the evaluation
-                # is not claimed here; a wrong answer is the finding, a right one is fine
-                st.count('parser-gap-type')
-                if sp_ is not None and got != sp_:
-                    run.disagree(Disagreement(dict(case, op=op), got, None, sp_, what=what,
-                                              site='xpath31 parser: sequence type', tags=itags + ['F18p']))
-                continue
             if got != mdl or (sp_ is not None and got != sp_):
                 run.disagree(Disagreement(dict(case, op=op), got, mdl, sp_, what=what,
                                           site='_xpath2_operators.' + site, tags=itags))
         # 4. the same judgements with the item types written in parentheses (XPath 3.0 ParenthesizedItemType): the
-        #    answer is the answer of the plain spelling (finding F18w on a tree that rejects the parentheses)
-        if ty[0] != 'E' and (len(vt) + x + c) % 4 == 0 and not (a['fp'] == '1' and not tree_has('parser')):
+        #    answer is the answer of the plain spelling
+        if ty[0] != 'E' and (len(vt) + x + c) % 4 == 0:
             ptext = render_paren(ty, spacing, run.rng)
             pcase = dict(case, text=ptext, spelling='parenthesised item types')
             st.count('parenthesised-spelling')
@@ -987,12 +932,6 @@ def judge_cases(run: Run, W: World, cases, label='judgement'):
                     ('function parameter', impl_param(W, pv, ptext, x, c) if param_op else None, ip, a['param'],
                      'function-parameter', '_InlineFunction.nud')):
                 if got is None or got == plain:
-                    continue
-                if not tree_has('paren'):
-                    st.count('F18w-region:parenthesised')
-                    if spec is not None and got != spec:
-                        run.disagree(Disagreement(dict(pcase, op=op), got, None, spec, what=what, site=site,
-                                                  tags=['F18w']))
                     continue
                 run.disagree(Disagreement(dict(pcase, op=op), got, mdl, spec, what=what + '-parenthesised', site=site,
                                           tags=itags))
@@ -1063,13 +1002,8 @@ def text_cases(run: Run, types):
                 run.disagree(Disagreement({'type': real, 'op': 'pySplit (Lean) against the AST pieces'}, model, spec, None,
                                           what='string-split-model', site='EPV.SeqType.pySplit'))
             if impl != spec:
-                if not tree_has('split') and not flat(ty):
-                    st.count('F18p-region:split')
-                    run.disagree(Disagreement({'type': real, 'op': 'helpers.split_function_test'}, impl, None, spec,
-                                              what='string-split', site='helpers.split_function_test', tags=['F18p']))
-                else:
-                    run.disagree(Disagreement({'type': real, 'op': 'helpers.split_function_test'}, impl, model, spec,
-                                              what='string-split', site='helpers.split_function_test'))
+                run.disagree(Disagreement({'type': real, 'op': 'helpers.split_function_test'}, impl, model, spec,
+                                          what='string-split', site='helpers.split_function_test'))
 
 
 def restr_cases(run: Run, pairs, what='restriction'):
@@ -1086,21 +1020,10 @@ def restr_cases(run: Run, pairs, what='restriction'):
         im = impl_restr(s1, s2)
         st.case({'r1': render(t1), 'r2': render(t2)}, nontrivial=True)
         st.count('restriction:' + im)
-        region = a['osr'] == '1'        # the Lean predicate `¬ Ty.oldSplitOK` (trigger of F18p for the string splitting)
-        if region != (old_split_region(t1) or old_split_region(t2)):
-            run.disagree(Disagreement(line, 'harness region predicate differs from Ty.oldSplitOK', what='protocol'))
-        st.count('restriction-' + ('nested-or-no-parameters' if region else 'flat'))
+        st.count('restriction-' + ('flat' if a['flat'] == '1' else 'nested'))
         if im != a['restr']:
-            if region and not tree_has('split'):
-                # tree without fix-c18-6: the parameter lists are cut at every ', ' (finding F18p); the relation on the
-                # AST (proved reflexive, transitive, sound for matching) is what the answer should have been
-                st.count('F18p-region:restriction')
-                run.disagree(Disagreement({'st1': s1, 'st2': s2, 'op': 'is_sequence_type_restriction'}, im, None, a['restr'],
-                                          what='restriction', site='sequence_types.is_sequence_type_restriction',
-                                          tags=['F18p']))
-            else:
-                run.disagree(Disagreement({'st1': s1, 'st2': s2, 'op': 'is_sequence_type_restriction'}, im, a['restr'],
-                                          what='restriction', site='sequence_types.is_sequence_type_restriction'))
+            run.disagree(Disagreement({'st1': s1, 'st2': s2, 'op': 'is_sequence_type_restriction'}, im, a['restr'],
+                                      what='restriction', site='sequence_types.is_sequence_type_restriction'))
 
 
 def laws_of_real_relation(run: Run, W: World, types, values, tag_check=True):
@@ -1805,8 +1728,8 @@ def own_occurrence_cases(run: Run, W: World, G=None):
     """a typed function test with an occurrence indicator of its own can only be written with parentheses,
     `(function(A) as R)*`; the AST of the model has no such type, the expected answers are by the cardinality rule
     (`occurrence_cardinality`) over items that are / are not instances of the plain function test.
-    Top level (instance of / treat as): must work on a tree with parenthesised item types.  In a declaration or nested
-    in another type the text-based code cannot hold the type: rejected with XPST0003 (finding F18w, all trees)."""
+    Top level (instance of / treat as): judged through the indicator kept on the function-test token.  In a declaration or nested
+    in another type the text-based code cannot hold the type: rejected with XPST0003 (finding F18w)."""
     st = run.stats
     g = 'let $g := function($i as xs:int) as xs:int { $i } return '
     ft = '(function(xs:int) as xs:int)'
@@ -1836,7 +1759,7 @@ def own_occurrence_cases(run: Run, W: World, G=None):
         except Exception as e:
             return err_text(e)
     # random: (typed function test, indicator, value of 0..3 items) against the model `instanceOfOwnOcc` / `treatAsOwnOcc`
-    if tree_has('paren') and G is not None:
+    if G is not None:
         rng = run.rng
         cases = []
         for _ in range(run.scale(300, 6000)):
@@ -1874,20 +1797,18 @@ def own_occurrence_cases(run: Run, W: World, G=None):
         st.count('own-occurrence:top-level')
         if got != spec:
             run.disagree(Disagreement({'expr': expr}, got, None, spec, what='own-occurrence',
-                                      site='XPath1Parser.parse_sequence_type',
-                                      tags=[] if tree_has('paren') else ['F18w']))
+                                      site='XPath1Parser.parse_sequence_type'))
     for expr, spec in decl:
         got = ev(expr)
         st.case({'expr': expr}, nontrivial=True)
         st.count('own-occurrence:declaration:' + got[:11])
         if got != spec:
             # the trigger: `(function(` ... `) as ` ... `)` followed by an occurrence indicator inside another type
-            # on a tree with parenthesised item types the finding is the static rejection only: another answer than the
-            # expected one (the indicator silently moved to the return type, the parentheses kept in a matched text)
-            # is a violation
+            # the finding is the static rejection only: another answer than the expected one (the indicator silently moved
+            # to the return type, the parentheses kept in a matched text) is a violation
             run.disagree(Disagreement({'expr': expr}, got, None, spec, what='own-occurrence-nested',
                                       site='_InlineFunction.nud append_sequence_type',
-                                      tags=['F18w'] if got == 'E:XPST0003' or not tree_has('paren') else []))
+                                      tags=['F18w'] if got == 'E:XPST0003' else []))
 
 
 COLLATION_LAST = {'fn:contains#3', 'fn:contains-token#3', 'fn:distinct-values#2', 'fn:max#2', 'fn:min#2', 'fn:starts-with#3',
@@ -2055,8 +1976,7 @@ def correspond(run: Run):
     # --- judgements
     cases = []
     for _ in range(run.scale(1800, 60000)):
-        # nested function tests are judged too where the tree splits parameter lists by depth (fix-c18-6)
-        ty = G.ty(0, want_flat=not tree_has('split') or rng.random() < 0.8)
+        ty = G.ty(0, want_flat=rng.random() < 0.8)      # one in five with nested function / map tests as parameters
         v = W.gen_seq()
         # bias: half of the time take a type that has a chance to match the first item
         if rng.random() < 0.45 and v[0]:
